@@ -192,3 +192,5 @@ def build(chk):
     from . import C01, C15
     chk.include(C01, r"^flux/.*/pointwise$", "uses:C01")
     chk.include(C15, r"^cons2prim/(transpose|one-dimensional/x)$", "uses:C15")
+    from . import C20
+    chk.include(C20, r".", "uses:C20")          # the mesh contract (uniform mesh, 2-D index tables)
